@@ -34,4 +34,18 @@ PART = {
             "a success answer to a leaver's partial counts as acceptance only if the receiver had not stored that round and had stored the last pre-transition round at least half a period earlier",
         ],
     },
+    "C10": {
+        "runs": [{"name": "daemonnet-follow", "pkg": PKG["core"], "run": "^TestVF_C10_Daemon$", "timeout": "25m", "timeout_thorough": "60m"}],
+        "rule": "daemon level: per case (quick 2 schemes: chained + one by seed; thorough all 5) a 3-member producing network of real daemons, then five fresh non-member daemons "
+                "follow it through Control.StartFollowChain (upTo = head-k, or 0 and cancelled after 3 live rounds) with peer lists mixing a dead address and honest members, while a "
+                "stream interceptor on the follower's SyncChain calls leaves them alone / cuts the first stream after k beacons / silences it after k beacons / refuses every stream of "
+                "the first attempt; then one member is stopped, its drand.db damaged (one round deleted, one signature bit-flipped; k, rounds, peer order from the case seed), its daemon "
+                "re-created, and Control.StartCheckChain run as dry run, repair limited by upTo, full repair, dry run. An evaluation = one Put on a follower's base store (verified under the "
+                "chain key, bytes = the network's, at head+1), one convergence / live-follow / offline re-scan checkpoint, or one comparison of a reported faulty round / count / rewritten "
+                "set with the damage; non-trivial = all of them, distinct by (scenario, phase relative to the injected fault | check phase, kind of damage).",
+        "assumptions": [
+            "StartCheckChain only reports the NUMBER of faulty rounds; the list is read in-package from Handler.ValidateChain, the function the RPC calls",
+            "convergence bounds are counted in beacon periods of the paced fake clock (25) plus a 30 s grace; a parked-forever verdict additionally needs the blocked frame in the goroutine dump",
+        ],
+    },
 }
